@@ -34,6 +34,18 @@ def _foreign(rng_seed, kind, D=None):
             except Exception:
                 pass
         return
+    if kind == "hardonly":
+        # another problem defined by hard bounds only (no plausible bounds: the constructor derives them and reports what it did), and one whose
+        # plausible box touches the hard box
+        from pybads import BADS
+        d = r.choice([1, 2, 3])
+        f = lambda x: float(np.sum(np.asarray(x) ** 2))
+        for kw in ({}, {"plausible_lower_bounds": np.full(d, -4.0), "plausible_upper_bounds": np.full(d, 6.0)}):
+            try:
+                b = BADS(f, np.full(d, 0.3), np.full(d, -4.0), np.full(d, 6.0), options={"display": r.choice(["off", "iter"])}, **kw)
+            except Exception:
+                pass
+        return
     if kind == "pyrandom":
         # the standard library's global generator (not reset by random_seed): reseeded and advanced by other code of the process
         random.seed(r.randint(0, 10 ** 6))
@@ -203,8 +215,10 @@ def run(ctx):
     for si, sp in enumerate(specs):
         jobs.append((sp, [], [], 0)); meta.append((si, "fresh", [], []))
         for v in range(2 if ctx.quick else 4):
-            pre = [rng.choice(["draws", "run", "construct", "sibling", "pyrandom"]) for _ in range(rng.randint(0, 3))]
-            mid = [rng.choice(["draws", "run", "construct", "sibling", "pyrandom"]) for _ in range(rng.randint(0, 2))]
+            pre = [rng.choice(["draws", "run", "construct", "sibling", "pyrandom", "hardonly"]) for _ in range(rng.randint(0, 3))]
+            mid = [rng.choice(["draws", "run", "construct", "sibling", "pyrandom", "hardonly"]) for _ in range(rng.randint(0, 2))]
+            if v == 1 and si < n_plain:
+                mid = ["hardonly"] + mid[:1]
             if v == 0:
                 pre = ["sibling"] + pre[:1]
             if si >= n_plain and v == 1:
